@@ -15,7 +15,7 @@ import (
 // after the script is exhausted every connection is healthy.
 
 type UpstreamAttempt struct {
-	Kind    string `json:"kind"`              // healthy | refuse | reset | neverack | late | wrongid | stopreading | silent (accepts, never sends or reads anything)
+	Kind    string `json:"kind"`              // healthy | refuse | reset | neverack | late | wrongid | stopreading | silent (accepts, never sends or reads anything) | rejectlogin (with a shared key: the handshake ends with a refusal)
 	After   int    `json:"after,omitempty"`   // reset: number of messages received (and acknowledged) before the reset
 	AckLast bool   `json:"ackLast,omitempty"` // reset: whether the message that triggers the reset is still acknowledged... (false = received but never acknowledged)
 	Delay   int    `json:"delay,omitempty"`   // late: milliseconds before each ACK
@@ -188,6 +188,16 @@ func (f *FakeForward) serve(idx int, c net.Conn, at UpstreamAttempt) {
 			_ = tc.SetLinger(0) // RST
 		}
 		return
+	case "rejectlogin":
+		f.mu.Lock()
+		noKey := f.Secret == ""
+		f.mu.Unlock()
+		if noKey { // without a shared key there is no login to reject: one more refused connection
+			if tc, ok := c.(*net.TCPConn); ok {
+				_ = tc.SetLinger(0)
+			}
+			return
+		}
 	case "silent":
 		// accept and then say nothing at all: with a shared key configured the client waits for the HELO that never comes
 		f.waitClosed(c)
@@ -197,7 +207,16 @@ func (f *FakeForward) serve(idx int, c net.Conn, at UpstreamAttempt) {
 	secret := f.Secret
 	f.mu.Unlock()
 	if secret != "" {
-		ok, err := forwardprotocol.DoServerHandshake(c, secret, 3*time.Second, func(_, _, _ string) (bool, string) { return true, "" })
+		reject := at.Kind == "rejectlogin"
+		ok, err := forwardprotocol.DoServerHandshake(c, secret, 3*time.Second, func(_, _, _ string) (bool, string) {
+			if reject {
+				return false, "scripted rejection" // the handshake completes with a PONG that refuses the login
+			}
+			return true, ""
+		})
+		if reject {
+			return
+		}
 		if err != nil || !ok {
 			return
 		}
